@@ -62,7 +62,7 @@ func c07BuildExpr(b *c07Built, w *c07WF, rr *Rand, sh c07Shift, cat *c07Catalogu
 	for i := range cat.exprSites {
 		st := &cat.exprSites[i]
 		nc := c07HasTag(st.tags, "nocontext") // every context is reported at this position
-		if ee.tag != "" && !c07HasTag(st.tags, ee.tag) {
+		if ee.tag != "" && ee.tag != "bareonly" && !c07HasTag(st.tags, ee.tag) {
 			continue
 		}
 		if nc && (strings.Contains(ee.text(), "github") || ee.class == "template") {
@@ -70,6 +70,9 @@ func c07BuildExpr(b *c07Built, w *c07WF, rr *Rand, sh c07Shift, cat *c07Catalogu
 		}
 		for _, md := range st.modes {
 			if ee.class == "template" && md != "emb" {
+				continue
+			}
+			if (ee.tag == "bareonly") != (md == "bare") && ee.tag == "bareonly" {
 				continue
 			}
 			if md == "bare" && ee.end && ee.pre == "" {
@@ -92,6 +95,8 @@ func c07BuildExpr(b *c07Built, w *c07WF, rr *Rand, sh c07Shift, cat *c07Catalogu
 		if noctx && strings.Contains(wr.pre+wr.post, "github") {
 			wr = c07Wrapper{"(", ")"}
 		}
+	} else if ee.tag == "bareonly" {
+		// no wrapper: an opening parenthesis would be reported first
 	} else if ee.class == "lexer" || ee.class == "parser" || ee.class == "lexer-eof" {
 		// only text before the error matters
 		pre := []string{"", "", "(", "true && ", "contains(1, ", "!"}
@@ -239,6 +244,7 @@ func c07BuildExpr(b *c07Built, w *c07WF, rr *Rand, sh c07Shift, cat *c07Catalogu
 	b.expects = append(b.expects, c07Expect{msg: "is always evaluated to true because extra characters are around", anchor: 'n', abs: true, optional: true})
 	if !site.flowable() {
 		*wantFlow = false
+		b.flowVeto = true
 	}
 }
 
@@ -254,6 +260,10 @@ func (s *c07ExprSite) flowable() bool {
 func c07BuildKey(b *c07Built, w *c07WF, rr *Rand, sh c07Shift, cat *c07Catalogue, wantFlow *bool) {
 	site := &cat.keySites[rr.Intn(len(cat.keySites))]
 	k, msgs, opt := site.build(w, rr)
+	if site.noFlow {
+		*wantFlow = false
+		b.flowVeto = true
+	}
 	b.target = k
 	b.isKey = true
 	b.site = "key"
@@ -285,6 +295,7 @@ func c07BuildValue(b *c07Built, w *c07WF, rr *Rand, sh c07Shift, cat *c07Catalog
 	}
 	if !site.flowOK {
 		*wantFlow = false
+		b.flowVeto = true
 	}
 }
 
@@ -319,8 +330,16 @@ func c07BuildGlob(b *c07Built, w *c07WF, rr *Rand, sh c07Shift, cat *c07Catalogu
 	}
 	pre := c07GlobText(rr.Sub(21), nPre)
 	suf := c07GlobText(rr.Sub(22), nSuf)
-	val := pre + ge.bad + suf
-	off := len(pre) + ge.in
+	negDraw := rr.Intn(4) == 0
+	neg := ""
+	if ge.neg || (negDraw && !ge.noNeg) {
+		neg = "!" // negated pattern: every column moves by one
+	}
+	val := neg + pre + ge.bad + suf
+	off := len(neg) + len(pre) + ge.in
+	if neg != "" {
+		b.info["negated"] = 1
+	}
 	t := c07S(val)
 	// where: push or pull_request; as the only element, a later element, or a scalar
 	var ev *c07Node
@@ -355,6 +374,11 @@ func c07BuildGlob(b *c07Built, w *c07WF, rr *Rand, sh c07Shift, cat *c07Catalogu
 	b.kind = "glob"
 	b.mode = "value"
 	b.info["text"] = nPre
+	gname := ge.msg
+	if len(gname) > 34 {
+		gname = gname[:34]
+	}
+	b.info["site:glob/"+map[bool]string{true: "ref", false: "path"}[isRef]+"/"+map[bool]string{true: "negated/", false: ""}[neg != ""]+gname] = 1
 	if ge.quoted {
 		b.allowedStyles = "ad"
 	}
